@@ -307,7 +307,7 @@ func execC13Store(c c13Case, x *verifkit.Ctx) (fail *verifkit.Failure) {
 		}
 		return Loaded[int]{Value: id, Cost: rd.Cost, TTL: time.Duration(rd.TTL)}, nil
 	})
-	sharedFlight, failing, mixed, overExisting, costFunction := false, false, false, false, false
+	sharedFlight, failing, mixed, overExisting, costFunction, slowLoader := false, false, false, false, false, false
 	for ri, rd := range c.Rounds {
 		if rd.Cost > 100 && verifkit.Avoid("C06-loader-oversized") {
 			rd.Cost = 100
@@ -444,9 +444,15 @@ func execC13Store(c c13Case, x *verifkit.Ctx) (fail *verifkit.Failure) {
 			}
 			s2 := NewStore[int, int](&StoreOptions[int, int]{MaxSize: 100, Cost: costFn})
 			l2 := NewLoadingStore(s2)
+			// the loader takes (virtual) time, up to several times the TTL it returns: the TTL of a load counts
+			// from the moment the value is stored, as the TTL of the Set made right after it does (seeded C13h:
+			// the deadline computed from a clock reading taken before the loader ran)
+			loaderDt := []int64{0, 0, 1, ttl / 2, ttl, 3 * ttl}[(ri+rd.Key+rd.Followers)%6]
 			l2.Loader(func(ctx context.Context, key int) (Loaded[int], error) {
+				vkAdvance(loaderDt)
 				return Loaded[int]{Value: val, Cost: cost, TTL: time.Duration(ttl)}, nil
 			})
+			slowLoader = slowLoader || loaderDt > 0
 			ref := NewStore[int, int](&StoreOptions[int, int]{MaxSize: 100, Cost: costFn})
 			overExpired := (ri+rd.Key+rd.Followers)%2 == 1
 			for _, st := range []*Store[int, int]{s2, ref} {
@@ -510,6 +516,7 @@ func execC13Store(c c13Case, x *verifkit.Ctx) (fail *verifkit.Failure) {
 	}
 	x.ClassIf(overExisting, "load-over-expired-resident-entry")
 	x.ClassIf(costFunction, "differential-with-cost-function")
+	x.ClassIf(slowLoader, "differential-with-a-loader-that-takes-time")
 	x.ClassIf(sharedFlight, "flight-shared")
 	x.ClassIf(failing, "failing-load")
 	x.ClassIf(mixed, "concurrent-set-or-delete")
